@@ -167,8 +167,9 @@ def gen_T15():
     SCAN = ("gname = g._name.lower()", "for name in registry._cache.keys():",
             "if name.lower().startswith(gname) and len(gname) < len(name):", "name = name[len(gname) + 1:]",
             "parts = registry.split(name)")
-    for fn_, conds in (('registerNetworkValue', ["if len(parts) == 1 and parts[0] and ircutils.isChannel(parts[0]):"]),
+    for fn_, conds in (('registerNetworkValue', ["if len(parts) == 1 and parts[0] and (parts[0].startswith(':') or ircutils.isChannel(parts[0])):"]),
                        ('registerChannelValue', ["if len(parts) == 2 and parts[0] and parts[0].startswith(':') and parts[1] and ircutils.isChannel(parts[1]):",
+                                                 "elif len(parts) == 1 and parts[0] and parts[0].startswith(':'):",
                                                  "elif len(parts) == 1 and parts[0] and ircutils.isChannel(parts[0]):"])):
         src_ = ast.unparse(find_def(cf, fn_))
         for frag in SCAN + tuple(conds):
